@@ -583,3 +583,24 @@ Proof.
   assert (HL : L = t + OB tb s) by (unfold L; rewrite Hoff; reflexivity).
   rewrite (local_at_last tb L post Hw ltac:(lia)); replace (nT tb - 1)%nat with s by lia; lia.
 Qed.
+
+(* the other recorded finding, exactly: for EVERY well-formed table, (a) every instant t before
+   the first transition whose local time is repeated after it is answered with the later instant
+   for both flags, (b) every local time in the gap of the first transition is answered with
+   record 0 for postTransition=true as well, never with the first transition's offset *)
+Lemma local_first_defect tb : wf tb = true -> (1 <= nT tb)%nat ->
+  (forall t, let L := t + offset_at tb t in
+     seg tb t = 0%nat -> U tb 0 + O tb 0 <= L ->
+     forall post, fromLocalSeconds tb L post = t + (OB tb 0 - O tb 0) /\ t < t + (OB tb 0 - O tb 0)) /\
+  (forall L, U tb 0 + OB tb 0 <= L < U tb 0 + O tb 0 ->
+     fromLocalSeconds tb L true = L - OB tb 0 /\ L - OB tb 0 <> L - O tb 0).
+Proof.
+  intros Hw Hn. split.
+  - intros t L Hs Hwin post.
+    pose proof (offset_at_seg tb t Hw) as Hoff. rewrite Hs in Hoff.
+    destruct (seg_bounds tb t Hw) as (_ & _ & Hhi). rewrite Hs in Hhi. specialize (Hhi ltac:(lia)).
+    assert (HL : L = t + OB tb 0) by (unfold L; rewrite Hoff; reflexivity).
+    destruct (local_at_first tb L post Hw Hn) as [_ H2]. rewrite H2 by lia. lia.
+  - intros L HL. destruct (local_at_first tb L true Hw Hn) as [H1 _].
+    rewrite H1 by lia. cbn [OB] in *. lia.
+Qed.
